@@ -341,7 +341,7 @@ PROPERTIES UpsertKeepsEdgesDistinct
 """
 
 
-def api_automaton(chk, binary, sc, tier):
+def api_automaton(chk, binary, sc, tier, purity_pid=False):
     """Spec -> code: behaviours of the construction API automaton (spec/WGraphApi.tla, TLC -simulate) are stepped through the
     real graph object; return value and projected state are compared after every call. The automaton is the layer the
     builder of C10 is written in; a divergence is DRIFT of that layer (reported, not a verdict on a model)."""
@@ -364,6 +364,11 @@ def api_automaton(chk, binary, sc, tier):
             got_edges = sorted((e[0], e[1], e[2], e[3], e[4], tuple(e[5])) for e in r["edges"])
             # the concrete state must be well formed beyond the projection: labels agree, edges know their source, nothing weighted yet
             wellformed = all(n[0] == n[3] == n[4] for n in r["nodes"]) and all(e[6] == e[0] and e[7] == 0 and e[8] == 0 for e in r["edges"])
+            if r.get("caller_slice_written") and purity_pid:
+                chk.violation("the condition list a caller handed to AddEdge was written to by a later call (call %d of behaviour %s: %s%s)" % (k + 1, o["id"], s["op"], s["args"]),
+                              {"calls": [[x["op"]] + x["args"] for x in b["steps"][:k + 1]], "mode": "construction API automaton"})
+                off += 1
+                break
             if s["ret"] != r["ret"] or want_nodes != got_nodes or want_edges != got_edges or not wellformed:
                 off += 1
                 chk.drift.append({"api_automaton": "step %d of behaviour %s: %s%s" % (k + 1, o["id"], s["op"], s["args"]), "spec": {"ret": s["ret"], "edges": want_edges[:6]},
